@@ -42,3 +42,20 @@ func init() {
 		Stub:     []string{"9P server: scripted peer with an independent codec", "transport: simulated net.Conn (segmentation, back-pressure, cuts, resets, write errors)"},
 		ProbeNames: []string{"fault-with-2+-calls-failing", "2+-outstanding-at-server"}})
 }
+
+var srvReal = []string{"go9p server framework (Srv, Conn recv/send goroutines, request workers, fid table, flush/tag queues, reply pools, Logger) — instrumented copy of /repo", "Go runtime, channels, mutexes"}
+var srvStub = []string{"file-server implementation: ScriptFS (scripted SrvReqOps/ConnOps/SrvFidOps/FlushOp/AuthOps with invocation log)", "9P clients: raw peers with an independent codec", "transport: simulated net.Conn (segmentation, coalescing, back-pressure, cuts)"}
+
+func init() {
+	reg(&propCfg{ID: "C03", QuickRuns: 6000, QuickSecs: 40, ThoroughRuns: 300000, ThoroughSecs: 780, Chunk: 50,
+		RuleNote:   "C03: 1..3 connections, per connection 1..16 (thorough 1..64) pipelined requests of 9 types on 1..64 tags that are reused as soon as a reply arrives; per request the script answers now / parked until released / after returning / from another goroutine / with an Rerror; stratum 'double-answer' also answers twice with different content. Held requests are released one per phase in scheduler-chosen order.",
+		Real:       srvReal, Stub: srvStub,
+		ProbeNames: []string{"multi-message-segment", "tag-reused-after-reply", "3+-held-simultaneously", "release-order-differs-from-arrival", "completion-order-differs-from-arrival", "8+-requests-held-on-a-connection"}})
+}
+
+func init() {
+	reg(&propCfg{ID: "C07", QuickRuns: 6000, QuickSecs: 40, ThoroughRuns: 300000, ThoroughSecs: 780, Chunk: 50,
+		RuleNote:   "C07: per connection 1..3 (thorough 1..6) flush episodes: a target request of any of 9 types (answered now / parked / after returning / from another goroutine / never) optionally queued behind a same-tag request, 1..3 Tflush of it placed in the same transport write, unsynchronised, once the target is parked in the implementation, or after its reply arrived; flush of a flush; the old tag is reused the moment Rflush (or the reply) arrives; with and without FlushOp (ignore / req.Flush() / answer the target). After the run, probes check that cancelled requests left no fid state.",
+		Real:       srvReal, Stub: srvStub,
+		ProbeNames: []string{"request-cancelled-by-flush", "cancelled-before-implementation", "cancelled-after-implementation-started", "f4-probe-unknown", "f4-probe-valid", "multi-message-segment"}})
+}
